@@ -567,6 +567,34 @@ pub fn multi_corpus(stride: u64) -> Vec<Multi> {
             ],
             main: "main",
         });
+        // optional composition at the very end of the render: an `ignore missing` include (single
+        // name and list of choices) of a template that itself includes / imports, as the last
+        // thing of the page and as the last thing of the last inherited block - nothing follows that
+        // could notice what the optional include left behind
+        out.push(Multi {
+            name: format!("{}:optional_include_tail", tag),
+            templates: vec![("main", "A{{ probe() }}{% include 'mid' ignore missing %}".into()), ("mid", "M{% include 'inc' %}".into()), ("inc", format!("{{{{ probe() }}}}{}", p))],
+            main: "main",
+        });
+        out.push(Multi {
+            name: format!("{}:optional_choices_tail", tag),
+            templates: vec![
+                ("main", "A{% include ['nope', 'mid'] ignore missing %}".into()),
+                ("mid", "M{% include ['nada', 'inc'] ignore missing %}".into()),
+                ("inc", format!("{}{{{{ probe() }}}}", p)),
+            ],
+            main: "main",
+        });
+        out.push(Multi {
+            name: format!("{}:optional_include_of_importer_in_last_block", tag),
+            templates: vec![
+                ("main", "{% extends 'base' %}{% block b %}[{% include 'mid' ignore missing %}{% endblock %}".into()),
+                ("base", "H{{ probe() }}{% block b %}{% endblock %}".into()),
+                ("mid", "{% from 'lib' import lm %}{{ lm(1) }}".into()),
+                ("lib", format!("{{% macro lm(i) %}}{{{{ probe() }}}}{}{{% endmacro %}}", p)),
+            ],
+            main: "main",
+        });
         n += stride;
     }
     out
